@@ -69,6 +69,12 @@ func (p c03) RunBatch(t *core.T, b core.Batch) {
 			}
 		}
 	case "exh":
+		if b.Arg == 0 {
+			for _, s := range []string{"-0:1.0", "-00:2", "+0:1", "-0:1.0-1", "+1:2-3", " -0:9 ", "0:-", "-0:", "-:1"} {
+				s := s
+				t.Case("roundtrip", []byte(s), func(c *core.C) { p.roundtrip(c, s, "exhaustive") })
+			}
+		}
 		A := gen.AllStrings("01:-", 6)
 		B := gen.AllStrings("1a:-.~+", tierN(t.Tier, 4, 5))
 		all := append(A, B...)
